@@ -59,7 +59,8 @@ Record intake_state := { i_queue : list Z; i_unpub : list Z }.   (* request iden
 
 Record intake_req := {
   ir_id : Z;
-  ir_accepted : bool;      (* protocol lookup, Parse, validation and decoration all succeed *)
+  ir_accepted : bool;      (* protocol lookup, Parse, validation, decoration and - for a create - building the response document
+                              all succeed; all of this happens before anything is stored or queued (F15) *)
   ir_unpub_type : bool;    (* its type is configured for the unpublished-operation store *)
   ir_put_ok : bool;        (* unpublished store Put succeeds *)
   ir_add_ok : bool }.      (* batch writer Add succeeds *)
